@@ -280,7 +280,19 @@ pub struct Query {
 
 /// hyps /\ (denominators non-zero) /\ not(goals); `goals` empty means goal = false.
 pub fn query(hyps: &[Atom], goals: &[Atom], linear: bool, perm_injective: bool, get_model: bool) -> Query {
-    let mut e = Emit::new(linear);
+    let prep = prepare(hyps, goals);
+    render(&prep, !goals.is_empty(), linear, perm_injective, get_model)
+}
+
+/// The obligation's atoms after the encoder's preprocessing (normal form, definitional
+/// rewriting, GF(p) row reduction).
+pub struct Prepared {
+    pub hyps: Vec<PAtom>,
+    pub goals: Vec<PAtom>,
+    pub dens: Vec<Poly>,
+}
+
+pub fn prepare(hyps: &[Atom], goals: &[Atom]) -> Prepared {
     let mut ph: Vec<PAtom> = hyps.iter().map(PAtom::of).collect();
     let mut pg: Vec<PAtom> = goals.iter().map(PAtom::of).collect();
     // every denominator atom registered so far is assumed non-zero
@@ -373,11 +385,17 @@ pub fn query(hyps: &[Atom], goals: &[Atom], linear: bool, perm_injective: bool, 
             ph.push(PAtom::False);
         }
     }
+    Prepared { hyps: ph, goals: pg, dens }
+}
+
+fn render(prep: &Prepared, has_goals: bool, linear: bool, perm_injective: bool, get_model: bool) -> Query {
+    let mut e = Emit::new(linear);
+    let (ph, pg, dens) = (&prep.hyps, &prep.goals, &prep.dens);
     let hs: Vec<String> = ph.iter().map(|h| e.patom(h)).collect();
     let gs: Vec<String> = pg.iter().map(|g| e.patom(g)).collect();
-    let goals_trivial = !goals.is_empty() && gs.iter().all(|g| g == "true" || g == "(and true )");
+    let goals_trivial = has_goals && gs.iter().all(|g| g == "true" || g == "(and true )");
     let mut dn = vec![];
-    for d in &dens {
+    for d in dens.iter() {
         if d.as_constant().map_or(false, |c| c != 0) {
             continue;
         }
@@ -417,7 +435,7 @@ pub fn query(hyps: &[Atom], goals: &[Atom], linear: bool, perm_injective: bool, 
     for h in hs {
         writeln!(s, "(assert {})", h).unwrap();
     }
-    if !goals.is_empty() {
+    if has_goals {
         writeln!(s, "(assert (not (and true {})))", gs.join(" ")).unwrap();
     }
     s.push_str("(check-sat)\n");
